@@ -95,7 +95,8 @@ def instances(tier, seed):
                  ("Optional(Bitwise(Struct('a'/BitsInteger(9), Error, 'b'/BitsInteger(7))))", dict(a=1, b=1))):
         out.append(dict(name="Error in the middle of a transformed region: %s" % w, params=dict(kind="error-region", source=w, value=v)))
     for src_, kw in (("OneOf(Default(Byte, this.d), [1, 2, 3])", "d"), ("OneOf(Rebuild(Byte, this.d), [1, 2, 3])", "d"), ("Struct('v'/OneOf(Default(Byte, this._params.d), [1, 2, 3]))", "d"),
-                     ("OneOf(Default(Byte, this.d), range(4, 9))", "d"), ("OneOf(Rebuild(Int16ub, this.d * 3), (6, 9, 300))", "d")):
+                     ("OneOf(Default(Byte, this.d), range(4, 9))", "d"), ("OneOf(Rebuild(Int16ub, this.d * 3), (6, 9, 300))", "d"),
+                     ("NoneOf(Default(Byte, this.d), [9, 10])", "d"), ("Struct('v'/NoneOf(Default(Byte, this._params.d), [0]))", "d"), ("ExprValidator(Default(Byte, this.d), obj_ != 7)", "d")):
         out.append(dict(name="validator around a member that builds from nothing: %s" % src_, params=dict(kind="validator-none", source=src_)))
     return out
 
